@@ -189,6 +189,10 @@ def judge_slices(obs, BB, b, B, shape):
               f'box {b} image {shape}: slices {sl!r}, {ss!r}; expected {exp_large}, {exp_small}', 'slices')
 
 
+def _t(box):
+    return None if box is None else as_tuple(box)
+
+
 def judge_independent(obs, a, b, A, B):
     """results are new objects holding Python ints; editing a result leaves the operands alone; slices index arrays."""
     for name, res in (('union', A | B), ('intersection', A & B)):
@@ -197,6 +201,15 @@ def judge_independent(obs, a, b, A, B):
         ok_t = all(type(getattr(res, k)) is int for k in ('ixmin', 'ixmax', 'iymin', 'iymax'))
         obs.check(ok_t, 'corner-not-a-python-int', f'{name} of {a} and {b} stores corners of types {[type(getattr(res, k)).__name__ for k in ("ixmin", "ixmax", "iymin", "iymax")]}', 'independent')
         obs.check(res is not A and res is not B, 'result-is-an-operand', f'{name} of {a} and {b} returned one of its operands (editing the result would edit the operand)', 'independent')
+        # a result is a box like any other: it behaves as the box built afresh from its four corners
+        fresh = type(A)(*as_tuple(res))
+        shp = (max(a[3], b[3], 1) + 1, max(a[1], b[1], 1) + 1)
+        same = (res == fresh and tuple(res.shape) == tuple(fresh.shape)
+                and all(_t(res & X) == _t(fresh & X) and _t(res | X) == _t(fresh | X) and _t(X & res) == _t(X & fresh) for X in (A, B, fresh)))
+        if shp[0] * shp[1] < 10 ** 7:
+            same = same and res.get_overlap_slices(shp) == fresh.get_overlap_slices(shp)
+        obs.check(same, 'result-differs-from-box-with-same-corners', f'the {name} of {a} and {b} has corners {as_tuple(res)} but does not behave like '
+                  f'RegionBoundingBox{as_tuple(res)} (overlap slices for image {shp}, further unions / intersections)', 'independent')
         res.ixmin -= 3
         res.iymax += 2
         obs.check(as_tuple(A) == a and as_tuple(B) == b, 'editing-result-changes-operand', f'editing the {name} of {a} and {b} changed an operand', 'independent')
